@@ -5,6 +5,8 @@ Case kinds (all JSON-serialisable, all replayable on their own):
   {"type": "deep", "kind": K, "levels": L}         build the polytope, divide L times; after EVERY division compare the
                                                    complete graph with the Lean model and evaluate the statement of C18
   {"type": "history", "kind": K, "ops": [...]}     interleaved divide / get_nodes(N, projection) / get_half_of_hypercube(N, projection)
+  {"type": "observe", "kind": K, "levels": L, "obs": [[level, name], ...]}
+                                                   one object; at each level < L the named read-only methods, then divide_edges
   {"type": "lattice", "kind": K, "k": k}           the ideal lattice used on the right-hand side of the Lean theorems
                                                    against the oracle's own construction of the lattice
   {"type": "upper", "pts": [...]}                  q_in_upper_sphere on exact small-integer points
@@ -28,7 +30,12 @@ import core
 RULE = ("deep: each polytope class built and divided to its bound (icosahedron, cube3D: level 4; cube4D: level 2), every "
         "intermediate level compared node by node / edge by edge with the exact model and with the ideal lattice; "
         "history: random interleavings of divide_edges / get_nodes(N, projection) / get_half_of_hypercube(N, projection) "
-        "with N in {0, 1, n-1, n, n+1, random}; a case is distinct by (class, op sequence); non-trivial = at least one "
+        "with N in {0, 1, n-1, n, n+1, random} and read-only observer calls; observe: on ONE object per class every public "
+        "read-only method (get_nodes variants, get_neighbours_of, get_polytope_adj_matrix, get_cdist_matrix, "
+        "get_edges_of_categories, category counts, get_N_element_graph, __str__; cube4D also get_half_of_hypercube, "
+        "get_all_cells with/without include_only, matrix/neighbour variants) is called at every level below the bound between "
+        "the subdivisions (seed-chosen order; thorough adds seed-chosen subsets), the complete graph is compared before/after "
+        "every call and with the model at every level, and the statement is evaluated after the whole history; a case is distinct by (class, op sequence); non-trivial = at least one "
         "division or one non-empty getter result")
 
 PHI = (1 + math.sqrt(5)) / 2
@@ -170,6 +177,12 @@ def impl_history(case):
                 if op[0] == "D":
                     p.divide_edges()
                     out.append({"ok": p.G.number_of_nodes()})
+                elif op[0] == "O":
+                    err, changed = call_observer(p, op[1])
+                    if err:
+                        out.append({"err": err})
+                    else:
+                        out.append({"ok": p.G.number_of_nodes(), "changed": changed})
                 elif op[0] == "G":
                     r = np.array(p.get_nodes(N=op[1], projection=bool(op[2])))
                     full = np.array(p.get_nodes(N=None, projection=bool(op[2])))
@@ -188,7 +201,21 @@ def impl_history(case):
 # ----------------------------------------------------------------------------------------------
 # failing-input search: the statement of C18 evaluated on the implementation (no model involved)
 # ----------------------------------------------------------------------------------------------
+class _Rec:
+    """collects failures without reporting them (used to shrink an observer history before it is reported)"""
+    dry = True
+
+    def __init__(self):
+        self.failures = []
+
+    def fail(self, key, what, case, expected=None, observed=None):
+        self.failures.append((key, what, case, expected, observed))
+
+
 def fail_once(ctx, key, what, case, expected=None, observed=None):
+    if getattr(ctx, "dry", False):
+        ctx.fail(key, what, case, expected, observed)
+        return
     k = (key, json.dumps(case, sort_keys=True))
     if k in _done_fail:
         return
@@ -196,9 +223,9 @@ def fail_once(ctx, key, what, case, expected=None, observed=None):
     ctx.fail(key, what, case, expected, observed)
 
 
-def oracle_snapshot(ctx, kind, k, snap, prev):
+def oracle_snapshot(ctx, kind, k, snap, prev, base=None):
     """statement clauses on one snapshot (after k divisions); prev = snapshot after k-1 divisions or None"""
-    case = {"type": "deep", "kind": kind, "levels": k}
+    case = dict(base, levels=k) if base else {"type": "deep", "kind": kind, "levels": k}
     A = snap["arr"]
     n = len(A)
     # (1) node set = ideal lattice, each point once
@@ -300,6 +327,7 @@ def oracle_half(ctx, case, half, halfp, rows, where):
 # model side
 # ----------------------------------------------------------------------------------------------
 _SIGMA = {}    # kind -> list of per-level offset tables
+_M1 = {}       # kind -> model states (identity offsets) of the deepest build so far
 
 
 def derive_sigma(kind, mstates, snaps, maps):
@@ -324,12 +352,11 @@ def derive_sigma(kind, mstates, snaps, maps):
     return tabs, None
 
 
-def compare_deep(ctx, kind, levels, snaps, m1):
+def compare_deep(ctx, kind, levels, snaps, m1, base=None):
     """correspondence of every level; m1 = model states (full) with identity sigma.  Returns per-level node maps or None."""
-    case0 = {"type": "deep", "kind": kind, "levels": levels}
     maps = []
     for k, (snap, ms) in enumerate(zip(snaps, m1)):
-        case = {"type": "deep", "kind": kind, "levels": k}
+        case = dict(base, levels=k) if base else {"type": "deep", "kind": kind, "levels": k}
         mp = [nd[0] for nd in ms["nodes"]]
         MF = to_float(kind, mp, k)
         mp_, why = match(snap["arr"], MF, 1e-10)
@@ -372,8 +399,8 @@ def compare_deep(ctx, kind, levels, snaps, m1):
         want = MF[mp_] / (np.sqrt(nsq) * unit(kind, k))[:, None]
         if snap["proj"].shape != want.shape or not np.allclose(snap["proj"], want, rtol=0, atol=TOL):
             ctx.corr(f"{kind}/projection at level {k}", case, None, None)
-        ctx.nt(("deep", kind, k))
-        ctx.branch(f"{kind}_level_{k}")
+        ctx.nt(("deep" if not base else "observe:" + json.dumps(base.get("obs")), kind, k))
+        ctx.branch(f"{kind}_level_{k}" if not base else f"observed_{kind}_level_{k}")
         ctx.branch("nodes_compared", len(mp))
         ctx.branch("edges_compared", len(e_m))
     return maps
@@ -412,6 +439,8 @@ def deep_stage1(ctx, case, m1_future=None):
         oracle_snapshot(ctx, kind, k, s, prev)
         prev = s
     m1 = m1_future.result() if m1_future is not None else model_build(ctx, kind, levels, None, True)
+    if len(m1) > len(_M1.get(kind, [])):
+        _M1[kind] = m1
     if any(sn.get("getter_errors") for sn in snaps):
         ctx.corr(f"{kind}/getters raise where the model returns rows", case, [sn.get("getter_errors") for sn in snaps], "ok")
         return None
@@ -474,6 +503,199 @@ def sigma_for(ctx, kind, levels):
     return tabs
 
 
+# ----------------------------------------------------------------------------------------------
+# read-only observers ("every subdivision history": a public read-only method called between two subdivisions must not
+# change what later subdivisions produce; in the model such a call is the identity step `observe`)
+# ----------------------------------------------------------------------------------------------
+def _half(p):
+    return max(1, p.G.number_of_nodes() // 2)
+
+
+# name -> (classes it exists for, highest level it is called at (cost), call)
+OBSERVERS = {
+    "str": (KINDS, 9, lambda p: str(p)),
+    "get_nodes": (KINDS, 9, lambda p: p.get_nodes()),
+    "get_nodes_proj": (KINDS, 9, lambda p: p.get_nodes(projection=True)),
+    "get_nodes_N": (KINDS, 9, lambda p: p.get_nodes(N=_half(p))),
+    "get_nodes_N_proj": (KINDS, 9, lambda p: p.get_nodes(N=_half(p) // 2, projection=True)),
+    "get_neighbours_of": (KINDS, 9, lambda p: p.get_neighbours_of(0)),
+    "get_polytope_adj_matrix": (KINDS, 9, lambda p: p.get_polytope_adj_matrix()),
+    "get_cdist_matrix": (KINDS, 9, lambda p: p.get_cdist_matrix()),
+    "get_edges_of_categories": (KINDS, 9, lambda p: p.get_edges_of_categories()),
+    "get_edges_of_categories_0": (KINDS, 9, lambda p: p.get_edges_of_categories(categories=[0], data=True)),
+    "count_of_point_categories": (KINDS, 9, lambda p: p._get_count_of_point_categories()),
+    "count_of_edge_categories": (KINDS, 9, lambda p: p._get_count_of_edge_categories()),
+    "get_N_element_graph": (KINDS, 1, lambda p: p.get_N_element_graph(p.get_nodes(N=_half(p), projection=True))),
+    "get_half_of_hypercube": (("cube4",), 9, lambda p: p.get_half_of_hypercube()),
+    "get_half_of_hypercube_proj_N": (("cube4",), 9, lambda p: p.get_half_of_hypercube(projection=True, N=_half(p) // 2)),
+    "get_all_cells": (("cube4",), 9, lambda p: p.get_all_cells()),
+    "get_all_cells_include_only": (("cube4",), 9, lambda p: p.get_all_cells(include_only=p.get_half_of_hypercube())),
+    "get_cdist_matrix_full_N": (("cube4",), 9, lambda p: p.get_cdist_matrix(only_half_of_cube=False, N=_half(p))),
+    "get_cdist_matrix_half_N": (("cube4",), 9, lambda p: p.get_cdist_matrix(only_half_of_cube=True, N=_half(p) // 2)),
+    "get_polytope_adj_matrix_plain": (("cube4",), 9, lambda p: p.get_polytope_adj_matrix(include_opposing_neighbours=False,
+                                                                                           only_half_of_cube=False)),
+    "get_polytope_adj_matrix_opposing": (("cube4",), 9, lambda p: p.get_polytope_adj_matrix(include_opposing_neighbours=True,
+                                                                                              only_half_of_cube=False)),
+    "get_neighbours_of_plain": (("cube4",), 9, lambda p: p.get_neighbours_of(0, include_opposing_neighbours=False,
+                                                                             only_half_of_cube=False)),
+}
+
+
+def observers_for(kind, level):
+    return [n for n, (kinds, maxl, _) in OBSERVERS.items() if kind in kinds and level <= maxl]
+
+
+def fingerprint(p):
+    """everything of the object that a later subdivision or getter reads"""
+    G = p.G
+    nodes = tuple((n, d.get("level"), frozenset(d.get("face") or ()), d.get("central_index"),
+                   tuple(np.asarray(d.get("projection")).tolist())) for n, d in G.nodes(data=True))
+    return {"nodes": nodes, "edges": frozenset(frozenset(e) for e in G.edges()), "current_level": p.current_level,
+            "current_max_ci": p.current_max_ci, "side_len": p.side_len}
+
+
+def fp_diff(a, b):
+    for key in ("current_level", "current_max_ci", "side_len"):
+        if a[key] != b[key]:
+            return f"{key}: {a[key]} -> {b[key]}"
+    if a["edges"] != b["edges"]:
+        return f"edge set: {len(a['edges'])} -> {len(b['edges'])} edges"
+    if len(a["nodes"]) != len(b["nodes"]):
+        return f"node list: {len(a['nodes'])} -> {len(b['nodes'])} nodes"
+    for x, y in zip(a["nodes"], b["nodes"]):
+        if x != y:
+            for nm, u, v in zip(("key", "level", "face", "central_index", "projection"), x, y):
+                if u != v:
+                    return f"node {list(x[0])}: {nm} {sorted(u) if nm == 'face' else u} -> {sorted(v) if nm == 'face' else v}"
+    return None
+
+
+def call_observer(p, name):
+    """returns (error name or None, description of a change of the object or None)"""
+    before = fingerprint(p)
+    err = None
+    try:
+        with core.quiet():
+            OBSERVERS[name][2](p)
+    except Exception as e:
+        err = core.errname(e)
+    return err, fp_diff(before, fingerprint(p))
+
+
+def impl_observe(case):
+    """one object: at every level k < levels the observers listed for k, then divide_edges; snapshots of every level"""
+    kind, levels = case["kind"], case["levels"]
+    snaps, events = [], []
+    try:
+        with core.quiet():
+            p = _cls(kind)()
+        for k in range(levels + 1):
+            snaps.append(snapshot(p, kind))
+            if k == levels:
+                break
+            for lvl, name in case["obs"]:
+                if lvl == k and name in OBSERVERS and kind in OBSERVERS[name][0]:
+                    err, changed = call_observer(p, name)
+                    events.append({"level": k, "name": name, "err": err, "changed": changed})
+            with core.quiet():
+                p.divide_edges()
+            if p.G.number_of_nodes() != len(oracle_lattice(kind, k + 1)):
+                snaps.append(snapshot(p, kind))
+                return snaps, {"err": "stopped", "at": k + 2, "stopped": True}, events
+        return snaps, None, events
+    except Exception as e:
+        return snaps, {"err": core.errname(e), "msg": str(e)[:300], "at": len(snaps)}, events
+
+
+def oracle_observe(ctx, case, snaps, err):
+    """the statement after the history (every level reached), reported against the observer history"""
+    kind = case["kind"]
+    if err is not None and not err.get("stopped"):
+        fail_once(ctx, "C18:exception", f"{kind}: division {err['at']} raised {err['err']} after read-only calls: {err.get('msg')}",
+                  dict(case, levels=err["at"]))
+    prev = None
+    for k, sn in enumerate(snaps):
+        oracle_snapshot(ctx, kind, k, sn, prev, base=case)
+        prev = sn
+
+
+def shrink_observe(case, failures, budget_s=150):
+    """try to reproduce the failure with a single observer call; returns (case, failures)"""
+    import time
+    t0 = time.time()
+    kf = min(f[2]["levels"] for f in failures)
+    for lvl, name in case["obs"]:
+        if lvl >= kf or time.time() - t0 > budget_s:
+            continue
+        c2 = {"type": "observe", "kind": case["kind"], "levels": kf, "obs": [[lvl, name]]}
+        snaps, err, _ = impl_observe(c2)
+        rec = _Rec()
+        oracle_observe(rec, c2, snaps, err)
+        if rec.failures:
+            return c2, rec.failures
+    return case, failures
+
+
+def check_observe(ctx, case):
+    kind = case["kind"]
+    ctx.count()
+    snaps, err, events = impl_observe(case)
+    rec = _Rec()
+    oracle_observe(rec, case, snaps, err)
+    if rec.failures:
+        _, fl = shrink_observe(case, rec.failures)
+        for key, what, c, exp, obs in fl:
+            fail_once(ctx, key, what + " [history with read-only calls between the subdivisions]", c, exp, obs)
+    # correspondence: an observer is the identity step of the model
+    for ev in events:
+        sub = {"type": "observe", "kind": kind, "levels": ev["level"] + 1, "obs": [[ev["level"], ev["name"]]]}
+        if ev["changed"]:
+            ctx.corr(f"{kind}/read-only call {ev['name']} at level {ev['level']} changed the polytope object "
+                     f"(identity step `observe` of the model)", sub, ev["changed"], "unchanged")
+        if ev["err"]:
+            ctx.corr(f"{kind}/read-only call {ev['name']} at level {ev['level']} raised {ev['err']}", sub, ev["err"], "ok")
+        ctx.branch("observer_" + ev["name"])
+    ctx.branch("observer_calls", len(events))
+    if not snaps:
+        return
+    m1 = _M1.get(kind, [])
+    if len(m1) < len(snaps):
+        m1 = model_build(ctx, kind, len(snaps) - 1, None, True)
+        _M1[kind] = m1
+    if any(sn.get("getter_errors") for sn in snaps):
+        ctx.corr(f"{kind}/getters raise where the model returns rows", case, [sn.get("getter_errors") for sn in snaps], "ok")
+        return
+    compare_deep(ctx, kind, len(snaps) - 1, snaps, m1[:len(snaps)], base=case)
+    ctx.sample({"case": dict(case, obs=case["obs"][:6] + (["..."] if len(case["obs"]) > 6 else [])),
+                "observer_calls": len(events)})
+
+
+def gen_observe(ctx):
+    """quick: per class one history to the deepest level with EVERY observer at EVERY level below it (seed-chosen order);
+    thorough: additionally seed-chosen subsets / orders"""
+    rng = ctx.rng
+    lv = deep_levels(ctx)
+    out = []
+    for kind in KINDS:
+        obs = []
+        for k in range(lv[kind]):
+            names = observers_for(kind, k)
+            rng.shuffle(names)
+            obs += [[k, n] for n in names]
+        out.append({"type": "observe", "kind": kind, "levels": lv[kind], "obs": obs})
+    if not ctx.quick:
+        for kind, n, lmax in (("ico", 8, 3), ("cube3", 8, 3), ("cube4", 3, 2)):
+            for _ in range(n):
+                L = rng.randint(2, lmax)
+                obs = []
+                for k in range(L):
+                    names = observers_for(kind, k)
+                    obs += [[k, nm] for nm in rng.sample(names, rng.randint(1, min(4, len(names))))]
+                out.append({"type": "observe", "kind": kind, "levels": L, "obs": obs})
+    return out
+
+
+
 def n_div(ops):
     return sum(1 for o in ops if o[0] == "D")
 
@@ -518,6 +740,12 @@ def compare_history(ctx, case, out, mouts):
             if o["ok"] != m["ok"]:
                 ctx.corr(f"{kind}/history step {step}: node count after divide", case, o["ok"], m["ok"])
             continue
+        if op[0] == "O":
+            if o["ok"] != m["ok"] or o.get("changed"):
+                ctx.corr(f"{kind}/history step {step}: read-only call {op[1]} changed the polytope object (identity step of "
+                         f"the model)", case, o.get("changed") or o["ok"], m["ok"])
+            ctx.branch("history_observer_" + op[1])
+            continue
         rows = o["rows"]
         mi = [r[0] for r in m["ok"]]
         if len(rows) != len(mi):
@@ -559,7 +787,7 @@ def oracle_history(ctx, case, out):
                 return
             k += 1
             continue
-        if op[0] == "H" and kind != "cube4":
+        if op[0] == "O" or (op[0] == "H" and kind != "cube4"):
             continue
         if "err" in o:
             # ValueError exactly when more rows are requested than exist; n is not known here without the object,
@@ -655,6 +883,9 @@ def gen_histories(ctx):
                 ops.append(["D"])
                 k += 1
                 continue
+            if r > 0.8:
+                ops.append(["O", rng.choice(observers_for(kind, k))])
+                continue
             half = kind == "cube4" and rng.random() < 0.5
             n = sizes[kind][k] // (2 if half else 1)
             N = rng.choice([None, None, 0, 1, n - 1, n, n + 1, rng.randint(0, n), rng.randint(0, n)])
@@ -678,6 +909,9 @@ def dispatch(ctx, cases):
     deep = [c for c in cases if c.get("type") == "deep"]
     for c in deep:
         check_deep(ctx, c)
+    for c in cases:
+        if c.get("type") == "observe":
+            check_observe(ctx, c)
     hist = [c for c in cases if c.get("type") == "history"]
     if hist:
         check_histories(ctx, hist)
@@ -715,6 +949,10 @@ def run(ctx):
             deep_stage2(ctx, s, f)
         T["deep_phase2_wait_s"] = round(time.time() - t1, 1)
     t1 = time.time()
+    for c in gen_observe(ctx):
+        check_observe(ctx, c)
+    T["observer_histories_s"] = round(time.time() - t1, 1)
+    t1 = time.time()
     check_histories(ctx, hist)
     T["histories_s"] = round(time.time() - t1, 1)
     t1 = time.time()
@@ -732,6 +970,9 @@ def run(ctx):
     ctx.note("the per-level offset tables (numpy shuffle x networkx enumeration order) are parameters of the model; they are read "
              "off the implementation at the deepest level, checked to be permutations, and the model must then reproduce every "
              "index at every earlier level")
+    ctx.note("read-only observers (every public getter of the three classes, get_all_cells, adjacency / distance matrices, ...) are "
+             "identity steps of the model (Molgri.Polytope.observe, theorem observe_id / history_state); on the implementation the "
+             "complete graph is compared before and after every call and the statement is evaluated after the whole history")
     ctx.note("the only_seconds search filter of _add_edges_of_len is not modelled; complete edge sets are compared at every level")
 
 
